@@ -318,7 +318,10 @@ def input_class(spec, i):
     return "other"
 
 
-EDGE_SEEDS = [(0, "int"), (0, "int64"), (2 ** 32 - 1, "int"), (1, "int")]
+# 0 is falsy, np.int64(0) too, 2**32-1 is the largest legacy seed; seeds >= 2**32 next to their residues modulo 2**32:
+# default_rng takes the whole integer, seeds s and s + k * 2**32 are different seeds
+EDGE_SEEDS = [(0, "int"), (0, "int64"), (2 ** 32 - 1, "int"), (1, "int"), (42, "int"),
+              (2 ** 32, "int"), (2 ** 32 + 42, "int"), (2 ** 63 - 1, "int"), (2 ** 32 + 1, "int64")]
 
 
 HEAP_HISTORY = (1, 2, 4, 6)
@@ -843,6 +846,8 @@ def run(ctx):
         ctx.mismatch(*m["mismatch"])
     for idx, sp in enumerate(specs):
         seed, seed2 = rng.randrange(2 ** 31), rng.randrange(2 ** 31)
+        if idx % 3 == 0:
+            seed2 = seed + rng.choice([1, 2, 5]) * 2 ** 32
         for n in (1, 2, 3, 17, 1000):
             neval += 1
             if report(o_shape_seed(sp, n, seed, seed2 if seed2 != seed else seed + 1),
@@ -874,8 +879,11 @@ def run(ctx):
                         break
             report(o_statistics(esp, nbig, mkseed(eseed, etype), stats),
                    {"oracle": "statistics", "spec": esp, "n": nbig, "seed": eseed, "seed_type": etype})
-            report(o_shape_seed(esp, 3, eseed, eseed + 1 if eseed < 2 ** 32 - 1 else 5),
-                   {"oracle": "shape_seed", "spec": esp, "n": 3, "seed": eseed, "seed2": eseed + 1 if eseed < 2 ** 32 - 1 else 5})
+            # the other seed: the residue modulo 2**32 for a seed >= 2**32, else a neighbour
+            other = eseed % 2 ** 32 if eseed >= 2 ** 32 else (eseed + 1 if eseed < 2 ** 32 - 1 else 5)
+            for n in (1, 3):
+                if report(o_shape_seed(esp, n, eseed, other), {"oracle": "shape_seed", "spec": esp, "n": n, "seed": eseed, "seed2": other}):
+                    break
     # univariate: every family, unconditional and as a conditional distribution at a scalar given
     for fam in ALLFAMS:
         for rep in range(ctx.n(2, 12)):
